@@ -237,14 +237,45 @@ func WorkDir() string {
 			base = filepath.Join(base, "verif-work")
 		}
 		os.MkdirAll(base, 0o755)
+		sweepStale(base)
 		d, err := os.MkdirTemp(base, "p")
 		if err != nil {
 			fmt.Fprintf(os.Stderr, "harness: %v\n", err)
 			os.Exit(2)
 		}
+		os.WriteFile(filepath.Join(d, "owner.pid"), []byte(fmt.Sprint(os.Getpid())), 0o644)
 		workDir = d
 	})
 	return workDir
+}
+
+// sweepStale removes scratch directories left behind by processes that were killed (their owner is gone).
+func sweepStale(base string) {
+	ents, err := os.ReadDir(base)
+	if err != nil {
+		return
+	}
+	for _, e := range ents {
+		if !e.IsDir() || !strings.HasPrefix(e.Name(), "p") {
+			continue
+		}
+		dir := filepath.Join(base, e.Name())
+		st, err := os.Stat(dir)
+		if err != nil {
+			continue
+		}
+		age := time.Since(st.ModTime())
+		data, err := os.ReadFile(filepath.Join(dir, "owner.pid"))
+		if err != nil {
+			if age > 6*time.Hour {
+				os.RemoveAll(dir)
+			}
+			continue
+		}
+		if _, err := os.Stat("/proc/" + strings.TrimSpace(string(data))); err != nil && age > 10*time.Minute {
+			os.RemoveAll(dir)
+		}
+	}
 }
 
 // Cleanup removes the scratch directory.
